@@ -67,6 +67,8 @@ type Prover struct {
 	Pre    map[*ssa.Function][]Pre
 	inv    map[*ssa.Phi][]phiInv
 	stored map[*ssa.Function]map[string]bool
+	// helpers currently being inlined (recursion guard)
+	inlining map[*ssa.Function]bool
 }
 
 type phiInv struct {
@@ -416,6 +418,9 @@ func (e *Env) term(v ssa.Value) lin.Term {
 		if n := binaryWidth(c.FullName(), "Uint"); n > 0 {
 			t := e.fresh(v) // range of the unsigned result type
 			e.p.Cfg.use("binary.BigEndian.UintN ∈ [0, 2^N-1], needs len ≥ N/8")
+			return t
+		}
+		if t, ok := e.inlineCall(x); ok {
 			return t
 		}
 	case *ssa.Phi:
@@ -1124,4 +1129,66 @@ func (p *Prover) earlierLoad(ld *ssa.UnOp) *ssa.UnOp {
 		}
 	}
 	return best
+}
+
+// inlineCall: the integer result of a call of a small function of the same
+// package (an extracted helper with a single return) is the callee's return
+// term with the parameters replaced by the arguments; the facts that hold at
+// the callee's return come along, with the callee's other variables renamed
+// per call site.
+func (e *Env) inlineCall(x *ssa.Call) (lin.Term, bool) {
+	g := x.Call.StaticCallee()
+	if g == nil || g.Pkg == nil || g.Pkg != e.fn.Pkg || g == e.fn || len(g.Blocks) == 0 || e.p.inlining[g] || len(e.p.inlining) >= 2 {
+		return lin.Term{}, false
+	}
+	if g.Signature.Results().Len() != 1 {
+		return lin.Term{}, false
+	}
+	if _, _, isInt := intRange(g.Signature.Results().At(0).Type(), e.p.Cfg.IntBits); !isInt {
+		return lin.Term{}, false
+	}
+	var ret *ssa.Return
+	n := 0
+	ssax.Instrs(g, func(in ssa.Instruction) {
+		if r, ok := in.(*ssa.Return); ok && in.Block().Comment != "recover" {
+			ret = r
+			n++
+		}
+	})
+	if n != 1 || len(ret.Results) != 1 {
+		return lin.Term{}, false
+	}
+	if e.p.inlining == nil {
+		e.p.inlining = map[*ssa.Function]bool{}
+	}
+	e.p.inlining[g] = true
+	defer delete(e.p.inlining, g)
+	ce := e.p.EnvAt(ret)
+	rt := ce.Term(ret.Results[0])
+	sub := map[string]lin.Term{}
+	for i, p := range g.Params {
+		if i >= len(x.Call.Args) {
+			break
+		}
+		a := x.Call.Args[i]
+		if _, _, isInt := intRange(p.Type(), e.p.Cfg.IntBits); isInt {
+			sub[p.Name()] = e.Term(a)
+		}
+		switch p.Type().Underlying().(type) {
+		case *types.Slice, *types.Basic:
+			if b, isB := p.Type().Underlying().(*types.Basic); !isB || b.Info()&types.IsString != 0 {
+				sub["len("+p.Name()+")"] = e.lenTerm(a)
+				if !isB {
+					sub["cap("+p.Name()+")"] = e.capTerm(a)
+				}
+			}
+		}
+	}
+	prefix := "@" + x.Name() + "."
+	rename := func(n string) string { return prefix + n }
+	for _, f := range ce.Facts {
+		e.Facts = append(e.Facts, lin.Ineq{T: lin.Subst(f.T, sub, rename), Why: f.Why + " (in " + g.Name() + ")"})
+	}
+	e.p.Cfg.use("result of a single-return helper of the package = its return expression over the arguments")
+	return lin.Subst(rt, sub, rename), true
 }
